@@ -69,11 +69,11 @@ def strategy(name):
             x = draw(gen.decorations(name, st.just(x)))
         y = draw(gen.decorations(name, st.just(x)))
         k = draw(st.integers(0, 7))
-        if k <= 1 and any(c.isalpha() for c in y):
+        if k <= 2 and any(c.isalpha() for c in y):
             # case variants whether or not the probe found the format case-insensitive as a whole (the pair only counts
             # when compact() agrees): all upper, all lower, or one letter flipped
             if k == 0:
-                y = draw(st.sampled_from([y.upper(), y.lower(), y.swapcase()]))
+                y = draw(st.sampled_from([y.upper(), y.lower(), y.swapcase(), y.title()]))
             else:
                 idx = [i for i, c in enumerate(y) if c.isalpha()]
                 i = draw(st.sampled_from(idx))
@@ -86,6 +86,17 @@ def shard(a):
     res = core.Result()
     name = a['mod']
     core.drive(prop, strategy(name), a['n'], (a['seed'], 'C03', name), res, shrink_skip=a['known'])
+    # every corpus number once with fixed simple decorations (numbers on a module's exception lists, rare kinds)
+    pr = gen.probe(name)
+    seps = [c for c in ' -./' if c in pr['neutral']]
+    for v in gen.pool(name)[:a['npool']]:
+        ys = [' ' + v + ' ']
+        if seps and len(v) > 2:
+            ys.append(v[:1] + seps[0] + v[1:len(v) // 2] + seps[-1] + v[len(v) // 2:])
+        if pr['lower']:
+            ys.append(v.lower())
+        for y in ys:
+            prop({'mod': name, 'x': v, 'y': y}, res)
     used = res.hist['pair:accept'] + res.hist['pair:reject']
     res.notes['pairs_per_module'] = {name: used}
     return res
@@ -95,7 +106,7 @@ def run(ctx):
     mods = core.number_modules()
     names = [n for n, m in mods.items() if hasattr(m, 'compact') and n not in EXCLUDED]
     n = ctx.q(250, 5000)
-    args = [{'shard': name, 'mod': name, 'n': n, 'seed': ctx.seed, 'known': ctx.known_buckets} for name in names]
+    args = [{'shard': name, 'mod': name, 'n': n, 'npool': ctx.q(150, 3000), 'seed': ctx.seed, 'known': ctx.known_buckets} for name in names]
     res = core.run_shards(shard, args)
     res.notes['modules'] = len(names)
     res.notes['modules_with_few_pairs'] = [k for k, v in res.notes.get('pairs_per_module', {}).items() if v < n * 0.2]
